@@ -31,6 +31,12 @@ CHECKS["C19"] = ("model_checking",
     "Audit coverage is what CPython's audit events report (open, mkdir, remove, rename, rmdir, rmtree, truncate, link, chmod, utime); the digest catches anything else that changes file contents or names.",
     "DESIGN.md §3 C19")
 
+CHECKS["C08"] = ("fault_enumeration",
+    "exhaustive fault enumeration: every mutating file-system op of each scenario x every fault kind (real process death / injected I/O error), recovery in a fresh process; thorough: every second fault during recovery",
+    "For 9 memoization scenarios (string, dedup across functions, key override, partition, exception, forget+recall, custom metadata, two arguments, None + shared partition blob) with and without memory cache, the fault-free op log is recorded and every (op, fault kind) pair is executed: crash before, crash leaving an empty file, crash leaving half the bytes, error on open/mkdir/unlink, ENOSPC mid-write. After restart in a fresh process every call must return the correct value, raise nothing and stop recomputing after one successful write; callers of a surviving process must not see the error.",
+    "Faults are process death and reported errors at the calls the library issues (audit cross-check makes un-intercepted mutations a harness error); no reordering of completed writes by the OS.",
+    "DESIGN.md §3 C08")
+
 PENDING = {}
 
 
